@@ -91,7 +91,13 @@ def c14(chk, tier):
     rules_esc.r_escpair(P(), chk)
 
 
+def c16(chk, tier):
+    chk.explanation = "Static: R-BYTECLASS (classifier table neutral on >= 0x80, ctype only in the C locale / on ASCII)."
+    rules_misc.r_byteclass(P(), chk)
+
+
 PROPS = {
+    "C16": ("other", c16),
     "C14": ("other", c14),
     "C12": ("other", c12),
     "C15": ("other", c15),
